@@ -275,11 +275,15 @@ pub fn process(
             } else {
                 (op_args[1].get_r8(constants)?, op_args[0].get_expr()?)
             };
-            opcode |= r.number() << 4;
-
             let k = k.run(constants)?;
 
             if constants.get_device().is_avr8l() {
+                // 1010 skkk dddd kkkk: only r16 - r31 fit the four-bit register field
+                if r.number() < 16 {
+                    bail!("{:?} can only use a high register (r16 - r31)", op);
+                }
+                opcode |= (r.number() & 0x0f) << 4;
+
                 if k < 40 || k > 0xbf {
                     bail!("Address out of range (0x40 <= k <= 0xbf)");
                 }
@@ -291,6 +295,7 @@ pub fn process(
                     bail!("Address out of range (0 <= k <= 65535)");
                 }
 
+                opcode |= r.number() << 4;
                 opcode_2part = (k as u16) & 0xffff;
 
                 long_opcode = true;
